@@ -76,6 +76,8 @@ def gen_workload(tape):
             o["q"] = gen_t(tape)
             o["filters"] = C1.gen_filters(tape, t.get("mode_in_name")) if F.uses_sat(t) else None
             o["as_str"] = tape.flag("as_str", 1, 5)
+            # a caller looping over timestamps passes the very same dict again
+            o["reuse_filters"] = tape.flag("reuse_filters", 1, 2)
         elif o["op"] == "create":
             fs = F.gen_files(tape, t, 1)
             o["file"] = dict(fs[0], t0=fs[0]["t0"].isoformat(),
@@ -155,6 +157,21 @@ class Run(C1.Run):
         covs = [self.cov(f) for f in self.files]
         t = self.resolve_t(o["q"], covs)
         filters = o["filters"] if not w["single"] else None
+        if filters and o.get("reuse_filters") and getattr(self, "last_filters", None) \
+                is not None:
+            import copy as _copy
+            filters = self.last_filters           # same object as in the previous call
+            if filters != self.last_filters_value:
+                self.V.append(_viol(
+                    "C16/filters-argument-modified",
+                    f"the filters dict passed by the caller was changed from "
+                    f"{self.last_filters_value} to {filters}"))
+                filters = _copy.deepcopy(self.last_filters_value)
+            self.probe("same_filters_object_reused")
+        if filters:
+            import copy as _copy
+            self.last_filters = filters
+            self.last_filters_value = _copy.deepcopy(filters)
         arg = t.strftime("%Y-%m-%d %H:%M:%S.%f") if o["as_str"] else t
         # ---- expected ------------------------------------------------------------
         if w["single"]:
